@@ -16,7 +16,8 @@
    were never checked; attributes unknown to the target version's element type were skipped. *)
 From AV Require Import Base.Bytes Base.Outcome Hash.HashModel Spec.SpecReal Tree.Heap Tree.Ops Tree.Compat Tree.CompatSpec
   Tree.CompatProofs1 Tree.CompatProofs2 Tree.CompatProofs3 Tree.CompatProofs4 Tree.Serialize
-  Tree.CompatTyped Tree.CompatProofs5 Tree.CompatReal.
+  Tree.CompatTyped Tree.CompatProofs5 Tree.CompatReal Tree.CompatBridge Tree.CompatProofs6 Tree.CompatProofs7.
+From AV Require Xml.Serializer Xml.RoundTripCanonb.
 From AV Require Xml.Parser.
 Open Scope list_scope.
 Open Scope N_scope.
@@ -147,3 +148,72 @@ Theorem C17_lookup_listed : forall (T : tables) (fuel : nat) (ty name ver : N) (
   find_sub T fuel ty name ver = Val (Some (et, ixs)) -> list_sub T fuel ty = Val items ->
   exists it, In it items /\ Spec.SpecProofs.it_name it = name /\ Spec.SpecProofs.it_type it = et.
 Proof. exact find_sub_listed. Qed.
+
+(* ================= the link to strict loading through the C01 theorems (no RoundTrip hypothesis) =================
+   file_tree T w f v t        t is the per-file projection of the heap as an element tree, RETYPED top-down for the target version v
+   relabelled_tree .. t'      t' = that projection after ArxmlFile::serialize's rewrite of the root's xsi:schemaLocation for v
+                              (Xml/Serializer.set_version); the text serialize_file v sa t is xml_header sa ++ ser_elem t'
+   rootrestb .. v t' = true   DECIDABLE side condition (Tree/CompatBridge.v): everything Xml/RoundTripCanonb.rootcanonb demands of a
+                              canonical root (names, value spelling and patterns, required attributes, shape, choice conflicts,
+                              multiplicities, SHORT-NAME where v wants one, header attributes) EXCEPT the version-mask tests of
+                              attributes and enumeration values, which are taken for `all versions` - those are what ValidIn adds
+   loads_strictly .. v t'     the serialization of t' (with any standalone flag) loads with strict = true, without warnings, as
+                              version v, back to t'  (C01_file_roundtrip + C01_rootcanonb_sound) *)
+
+(* [U] content valid in v + the side condition: the relabelled projection loads strictly as v *)
+Theorem C17_valid_loads : forall (T : tables) (tab_el tab_at tab_en : nametab) (check_fn : N -> list N -> res bool)
+    (float_fmt : N -> list N) (float_parse : list N -> option N) (w : world) (f v : N) (t' : Xml.Parser.etree),
+  relabelled_tree T tab_at check_fn w f v t' -> ValidIn T w f v ->
+  rootrestb T tab_el tab_at tab_en check_fn float_fmt float_parse v t' = true ->
+  loads_strictly T tab_el tab_at tab_en check_fn float_fmt float_parse v t'.
+Proof. exact valid_loads. Qed.
+
+(* [U] a clean check implies it (outside the K classes) *)
+Theorem C17_clean_loads : forall (T : tables) (tab_el tab_at tab_en : nametab) (check_fn : N -> list N -> res bool)
+    (float_fmt : N -> list N) (float_parse : list N -> option N) (w : world) (f v : N)
+    (errs : list compat_err) (mask : N) (t' : Xml.Parser.etree),
+  NoKnown T w f v -> f_check T w f v = Val (errs, mask) -> errs = [] ->
+  relabelled_tree T tab_at check_fn w f v t' -> rootrestb T tab_el tab_at tab_en check_fn float_fmt float_parse v t' = true ->
+  loads_strictly T tab_el tab_at tab_en check_fn float_fmt float_parse v t'.
+Proof. exact clean_loads. Qed.
+
+(* [U] after a successful set_version the file as ArxmlFile::serialize writes it loads strictly as the new version *)
+Theorem C17_set_version_loads : forall (T : tables) (tab_el tab_at tab_en : nametab) (check_fn : N -> list N -> res bool)
+    (float_fmt : N -> list N) (float_parse : list N -> option N) (w : world) (f v : N) (w' : world) (t' : Xml.Parser.etree),
+  f_set_version T f v w = Val (OK tt, w') -> NoKnown T w f v ->
+  relabelled_tree T tab_at check_fn w' f v t' -> rootrestb T tab_el tab_at tab_en check_fn float_fmt float_parse v t' = true ->
+  loads_strictly T tab_el tab_at tab_en check_fn float_fmt float_parse v t'.
+Proof. exact set_version_loads. Qed.
+
+(* [U over worlds, F over the tables] the same on the real tables for typed worlds, without K hypotheses *)
+Theorem C17_clean_loads_real : forall (tab_el tab_at tab_en : nametab) (check_fn : N -> list N -> res bool)
+    (float_fmt : N -> list N) (float_parse : list N -> option N) (w : world) (f v : N)
+    (errs : list compat_err) (mask : N) (t' : Xml.Parser.etree),
+  Typed RT w -> RootOk w f -> f_check RT w f v = Val (errs, mask) -> errs = [] ->
+  relabelled_tree RT tab_at check_fn w f v t' -> rootrestb RT tab_el tab_at tab_en check_fn float_fmt float_parse v t' = true ->
+  loads_strictly RT tab_el tab_at tab_en check_fn float_fmt float_parse v t'.
+Proof. exact clean_loads_real. Qed.
+Theorem C17_set_version_loads_real : forall (tab_el tab_at tab_en : nametab) (check_fn : N -> list N -> res bool)
+    (float_fmt : N -> list N) (float_parse : list N -> option N) (w : world) (f v : N) (w' : world) (t' : Xml.Parser.etree),
+  Typed RT w -> RootOk w f -> f_set_version RT f v w = Val (OK tt, w') ->
+  relabelled_tree RT tab_at check_fn w' f v t' -> rootrestb RT tab_el tab_at tab_en check_fn float_fmt float_parse v t' = true ->
+  loads_strictly RT tab_el tab_at tab_en check_fn float_fmt float_parse v t'.
+Proof. exact set_version_loads_real. Qed.
+
+(* [U] completeness on the tree: a projection that is a canonical root for v (root attributes allowed in v) has a clean check *)
+Theorem C17_canonical_clean : forall (T : tables) (tab_el tab_at tab_en : nametab) (check_fn : N -> list N -> res bool)
+    (float_fmt : N -> list N) (float_parse : list N -> option N) (w : world) (f v : N) (t : Xml.Parser.etree)
+    (errs : list compat_err) (mask : N),
+  NoKnown T w f v -> f_check T w f v = Val (errs, mask) ->
+  file_tree T w f v t -> Xml.RoundTripCanonb.rootcanonb T tab_el tab_at tab_en check_fn float_fmt float_parse v t = true ->
+  (forall r ty n, root_of w f r ty -> w_nodes w r = Some n -> Forall (CompatSpec.attr_valid T v ty) (n_attrs n)) ->
+  errs = [].
+Proof. exact canonical_clean. Qed.
+
+(* [U] the text in question is the one ArxmlFile::serialize produces from the projection *)
+Theorem C17_relabelled_text : forall (T : tables) (tab_el tab_at tab_en : nametab) (check_fn : N -> list N -> res bool)
+    (float_fmt : N -> list N) (w : world) (f v : N) (t' : Xml.Parser.etree) (body : list N) (sa : option bool),
+  relabelled_tree T tab_at check_fn w f v t' -> Xml.Serializer.ser_elem T tab_el tab_at tab_en float_fmt t' 0 false = Val body ->
+  exists t, file_tree T w f v t /\
+    Xml.Serializer.serialize_file T tab_el tab_at tab_en check_fn float_fmt v sa t = Val (Xml.Serializer.xml_header sa ++ body).
+Proof. exact relabelled_text. Qed.
